@@ -94,7 +94,12 @@ pub fn generate(stream: &str, n: usize, seed: u64, out: &mut dyn Write) {
         "rbsp" => for _ in 0..n { gen_rbsp(&mut r, out); },
         "rbsp-exh" => gen_rbsp_exhaustive(n, out),
         "decodenal" => for _ in 0..n { gen_decodenal(&mut r, out); },
-        "refnal" => for _ in 0..n { gen_refnal(&mut r, out); },
+        "refnal" => {
+            // NALs of 4 GiB and more (chunks borrowing one 1 MiB buffer): byte counts beyond 32 bits; small versions of the same shape
+            if n >= 30000 { for (c, lg, comp, extra, mode) in [(4096u64, 20u32, 1u8, 0u64, "f"), (4096, 20, 0, 5, "m"), (3, 4, 1, 2, "r"), (5, 3, 0, 0, "m")] { writeln!(out, "refnalhuge {} {} {} {} {}", c, lg, comp, extra, mode).unwrap(); } }
+            if n >= 400000 { for (c, lg, comp, extra, mode) in [(4097u64, 20u32, 1u8, 1u64, "r"), (8192, 19, 0, 0, "f"), (65537, 16, 1, 3, "m")] { writeln!(out, "refnalhuge {} {} {} {} {}", c, lg, comp, extra, mode).unwrap(); } }
+            for _ in 0..n { gen_refnal(&mut r, out); }
+        }
         "acc" => for _ in 0..n { gen_acc(&mut r, out); },
         "sei" => {
             // the 32-bit limit of the ff-extension coding: 16 843 009 ff bytes sum to 2^32 - 1, so one more non-zero byte overflows
@@ -924,6 +929,7 @@ fn gen_nal(r: &mut Rng, n: usize, out: &mut dyn Write) {
         let ok = run.run_line(&line).starts_with("pps:Ok");
         emit_prefixes(r, &ppsnal, out, &mut count, false);
         writeln!(out, "{}", line).unwrap(); count += 1;
+        let pinfo2 = pinfo.clone();
         if ok {
             let ppss = vec![pinfo];
             for _ in 0..2 {
@@ -948,6 +954,30 @@ fn gen_nal(r: &mut Rng, n: usize, out: &mut dyn Write) {
                 // two-way splits next to the end of the header (where the parser asks whether slice data follows)
                 let hl = 1 + escape(&d[..hdr_len.min(d.len())]).len();
                 for c in [hl.saturating_sub(2), hl.saturating_sub(1), hl, hl + 1] { if c >= 1 && c < nal.len() && r.below(2) == 0 { writeln!(out, "nal {},{} 1", hex(&nal[..c]), hex(&nal[c..])).unwrap(); count += 1; } }
+            }
+        }
+        if ok {
+            // a slice header that ends exactly on a byte boundary (searched for among fresh headers): slice data starting 80 / 00 / 01
+            // right behind it, the NAL cut (complete: two chunks; incomplete: prefix) exactly at the end of the header and one byte later -
+            // where `more_rbsp_data` has to look past what is buffered
+            let ppss2 = vec![pinfo2.clone()];
+            for _ in 0..12 {
+                let (hdr, mut d) = gen_slice(r, &spss, &ppss2);
+                while d.last() == Some(&0) { d.pop(); }
+                if hdr & 0x1f == 20 || d.last() != Some(&0x80) { continue; }
+                d.pop(); let hl = 1 + escape(&d).len();
+                for first in [0x80u8, 0x00, 0x01] {
+                    let mut e = d.clone(); e.push(first); e.extend_from_slice(&[0x00, 0x17, 0x42, 0x80]);
+                    let nal = to_nal(hdr, &e);
+                    if hl + 3 >= nal.len() { continue; }
+                    writeln!(out, "full {}", hex(&nal)).unwrap(); count += 1;
+                    for c in [hl, hl + 1, hl + 2, hl + 3] {
+                        writeln!(out, "nal {},{} 1", hex(&nal[..c]), hex(&nal[c..])).unwrap();
+                        writeln!(out, "nal {} 0", hex(&nal[..c])).unwrap(); count += 2;
+                    }
+                    writeln!(out, "nal {} 1", hex(&nal)).unwrap(); count += 1;
+                }
+                break;
             }
         }
         let sei = to_nal(0x06, &gen_sei_rbsp(r));
